@@ -166,6 +166,23 @@ pub fn gen(a: &Args) -> i32 {
             }
         }
         let _ = have_ckpt;
+        if rounds >= 2 && r.chance(1, 2) {
+            // back to the older checkpoint, then forward to the newer one (its log number lies above the live one), a few
+            // commits, and a process crash
+            writeln!(out, "restore 1").unwrap();
+            writeln!(out, "scan").unwrap();
+            writeln!(out, "restore 2").unwrap();
+            writeln!(out, "scan").unwrap();
+            for _ in 0..r.range(1, 3) {
+                vctr += 1;
+                writeln!(out, "txn {}={}:12", r.below(NK), vctr).unwrap();
+            }
+            writeln!(out, "crashscan").unwrap();
+            if r.chance(1, 2) {
+                writeln!(out, "reopen").unwrap();
+            }
+            st.bump("restore_older_then_newer");
+        }
         writeln!(out, "scan").unwrap();
         if vidx {
             for k in 0..NK {
@@ -317,6 +334,7 @@ pub fn exec(a: &Args) -> i32 {
                     dir = tempfile::tempdir().expect("tempdir");
                     ckpt = tempfile::tempdir().expect("tempdir");
                     vlog = w[2] == "1";
+                    nckpt = 0;
                     VIDX.store(w.get(3).copied() == Some("1"), std::sync::atomic::Ordering::SeqCst);
                     match TreeBuilder::with_options(mk(dir.path(), vlog)).build() {
                         Ok(t) => {
@@ -429,7 +447,9 @@ pub fn exec(a: &Args) -> i32 {
                 }
                 Some("restore") => {
                     let Some(t) = tree.as_ref() else { return "bad-op".into() };
-                    let p = ckpt.path().join(format!("c{nckpt}"));
+                    // `restore <k>`: the k-th checkpoint of the case; without argument the latest
+                    let which: usize = w.get(1).and_then(|x| x.parse().ok()).unwrap_or(nckpt);
+                    let p = ckpt.path().join(format!("c{which}"));
                     match t.restore_from_checkpoint(&p) {
                         Ok(_) => "ok".into(),
                         Err(e) => en(&e),
